@@ -18,6 +18,10 @@
 
 #include "threadexecutor.h"
 
+#ifdef DANMAR_CPPCHECK_VERIF
+#include "verifhook.hpp"
+#endif
+
 #ifdef HAS_THREADING_MODEL_THREAD
 
 #include "config.h"
@@ -61,6 +65,9 @@ public:
     }
 
     void reportErr(const ErrorMessage &msg) override {
+#ifdef DANMAR_CPPCHECK_VERIF
+        verifhook::schedPoint("thread-reportErr");
+#endif
         if (!mThreadExecutor.hasToLog(msg))
             return;
 
@@ -100,6 +107,9 @@ public:
     }
 
     bool next(const FileWithDetails *&file, const FileSettings *&fs, std::size_t &fileSize) {
+#ifdef DANMAR_CPPCHECK_VERIF
+        verifhook::schedPoint("thread-next");
+#endif
         std::lock_guard<std::mutex> l(mFileSync);
         if (mItNextFile != mFiles.end()) {
             file = &(*mItNextFile);
